@@ -239,6 +239,11 @@ def recover_only(R, env, prog, sites, RULE):
                 okb = res is not None and res[0] == "call" and res[1] == "std::ops::Add::add" and {norm(res[2][0]), norm(res[2][1])} == {norm(("acc",)), norm(("field", ("field", ("elem",), "amount"), "amount"))}
                 if zero_ and okb:
                     return coll
+                # the accumulator is the Coin itself: fold(Coin::new(0, d), |mut total, p| { total.amount += p.amount.amount; total })
+                zero_c = init[0] == "call" and init[1] == "cosmwasm_std::Coin::new" and len(init[2]) == 2 and const_int(init[2][0]) == 0
+                okc = res is not None and norm(res) == norm(("upd", ("acc",), ("amount",), ("mut", ("field", ("acc",), "amount"), "std::ops::AddAssign::add_assign", (("field", ("field", ("elem",), "amount"), "amount"),))))
+                if zero_c and okc:
+                    return coll
             if s_[0] == "call" and s_[1].endswith("Iterator::sum") and s_[2] and s_[2][0][0] == "call" and s_[2][0][1].endswith("Iterator::map") and len(s_[2][0][2]) == 2 and s_[2][0][2][1][0] == "closure":
                 # P.iter().map(|p| p.amount.amount).sum()
                 coll, clo = s_[2][0][2]
@@ -250,6 +255,10 @@ def recover_only(R, env, prog, sites, RULE):
     for t in trs:
         amt = t["amount"]
         fcoll = fold_sum(amt)
+        if fcoll is None and amt is None:
+            # the coin of the transfer is itself the result of the fold
+            amt = shared.agg_field(t["term"], "token")
+            fcoll = fold_sum(amt)
         if fcoll is not None and elem is not None and not [s for s in subterms(amt) if s[0] == "mut" and s[2].endswith("AddAssign::add_assign")]:
             # fold spelling: the sum runs over the same collection the removal loop iterates, and the
             # removal is executed in every iteration of its loop
